@@ -4105,10 +4105,15 @@ void SoPlexBase<R>::_untransformEquality(SolRational& sol)
          assert(_basisStatusRows[row] != SPxSolverBase<R>::BASIC
                 || _basisStatusCols[col] != SPxSolverBase<R>::BASIC);
 
-         SPxOut::debug(this,
-                       "slack column {} for row {}: col status={}, row status={}, redcost={}, dual={}\n",
-                       col, row, _basisStatusCols[col], _basisStatusRows[row],
-                       sol._redCost[col].str(), sol._dual[row].str());
+         SPxOut::debug(this, "slack column {} for row {}: col status={}, row status={}\n",
+                       col, row, _basisStatusCols[col], _basisStatusRows[row]);
+
+         // the arguments of a debug message are evaluated in every build: without a dual solution (stop at a limit)
+         // the vectors have no such entries
+         if(sol.isDualFeasible())
+         {
+            SPxOut::debug(this, "   redcost={}, dual={}\n", sol._redCost[col].str(), sol._dual[row].str());
+         }
 
          if(_basisStatusRows[row] != SPxSolverBase<R>::BASIC)
          {
